@@ -185,11 +185,27 @@ def run_one(key, idx, seed):
         cmd = [py, "-m", "pytest", "-q", "-x", "-p", "no:cacheprovider", "--timeout=600"] + list(tests)  # relative to cwd=scratch, so that --deselect ids match
         if "numpy_pickle" in " ".join(tests):
             cmd += KNOWN_4
+        # own session: a mutant can leave processes behind (a resource tracker whose loop no longer ends at EOF wrote 146 GB of
+        # tracebacks into pytest's captured-output file and filled the disk) - everything the test run started is killed afterwards
+        import signal
+        pr = subprocess.Popen(cmd, stdout=subprocess.DEVNULL, stderr=subprocess.DEVNULL, env=env, cwd=scratch, start_new_session=True)
         try:
-            tr = subprocess.run(cmd, capture_output=True, text=True, timeout=1500, env=env, cwd=scratch)
-            tests_ok = tr.returncode == 0
+            tests_ok = pr.wait(timeout=1500) == 0
         except subprocess.TimeoutExpired:
             tests_ok = False
+        finally:
+            try:
+                os.killpg(pr.pid, signal.SIGKILL)
+            except OSError:
+                pass
+            # children that started their own session (loky's tracker does not, multiprocessing helpers may): match by the scratch path
+            for pid in os.listdir("/proc"):
+                if pid.isdigit():
+                    try:
+                        if scratch.encode() in open("/proc/%s/environ" % pid, "rb").read():
+                            os.kill(int(pid), signal.SIGKILL)
+                    except OSError:
+                        pass
         res = dict(target=key, function=q, mutation=desc, tests="pass" if tests_ok else "fail", checks={})
         if tests_ok:
             for p in props:
